@@ -46,7 +46,16 @@ def _unit_worker(job):
                 canaries.append((outcome[0] if outcome[0] == 'return' else outcome[1],
                                  Obligation('canary.false', z3.BoolVal(False), ctx.hyps + ctx.pc, kind='canary', path=list(ctx.trace))))
             contract.finish(ctx, call, outcome)
+        cut_canaries = []
+
+        def on_cut(ctx):
+            # the same guard at the end of loop-body / prefix paths (their obligations are loop-step clauses assumed from invariants)
+            if len(cut_canaries) < 4:
+                from pyvc.interp import Obligation
+                cut_canaries.append(('cut', Obligation('canary.false', z3.BoolVal(False), ctx.hyps + ctx.pc, kind='canary', path=list(ctx.trace))))
+        eng.on_cut = on_cut
         obs, stats = eng.run_paths(lambda ctx: contract.setup(ctx, variant), contract.body, finish_with_canary)
+        canaries.extend(cut_canaries)
         out['stats'] = {k: v for k, v in stats.items()}
         out['gen_s'] = time.time() - t0
         out['n_generated'] = len(obs)
@@ -88,11 +97,14 @@ def _unit_worker(job):
             if res['status'] != 'unknown':
                 rec.update(status=res['status'], backend=res['backend'] + '+retry', reason=res.get('reason', '')[:160])
         live = 0
+        cut_live = 0
         for kind_, ob in canaries:
             r = solve_one((0, to_smt2(ob.hyps, ob.goal), 1500, False))
             if r['status'] != 'discharged':
                 live += 1
-        out['canary'] = {'path_ends_probed': len(canaries), 'not_vacuous': live}
+                if kind_ == 'cut':
+                    cut_live += 1
+        out['canary'] = {'path_ends_probed': len(canaries), 'not_vacuous': live, 'loop_body_paths_probed': len(cut_canaries), 'loop_body_paths_not_vacuous': cut_live}
         out['wall_s'] = time.time() - t0
     except Exception:
         out['error'] = traceback.format_exc()
